@@ -17,7 +17,7 @@ func VerifReadableSpec(spec []byte) string { return generateReadableSpec(spec) }
 
 // VerifPadComment / VerifBlockComment expose the comment helpers as registered in the FuncMap.
 func VerifPadComment(s string, pads ...string) string { return padComment(s, pads...) }
-func VerifBlockComment(s string) string              { return blockComment(s) }
+func VerifBlockComment(s string) string               { return blockComment(s) }
 
 // VerifTemplates returns the parsed templates of a repository loaded with the defaults (name -> template).
 func VerifTemplates() map[string]*template.Template {
